@@ -10,6 +10,7 @@
 From Coq Require Import List.
 From PV Require Import Lib.Py Model.Graph Model.GraphExpr.
 From PV Require Import Proofs.C01Base Proofs.C01Inv Proofs.C01 Proofs.C05.
+From PV Require Import Proofs.C01Weak Proofs.C05Weak.
 Import ListNotations.
 
 (* after ANY two histories of Build/Evaluate operations, in any order,
@@ -57,3 +58,15 @@ Theorem C05_path : forall W sem, wf W -> sem_nonblank W sem -> stored_ok W sem -
        = snd (evaluate W sem (fst (evaluate W sem s r)) cell).
 Proof. exact path. Qed.
 Print Assumptions C05_path.
+
+(* C05_order under the weak non-blank condition of C01 (Proofs/C01Weak.v: a
+   non-blank result only on argument lists that can arise) — the form that
+   applies to workbooks with the reference cell of an unbounded range (S!B:B),
+   which does not meet sem_nonblank (C01_alias_not_strong, C01_alias_weak) *)
+Theorem C05_order_weak : forall W sem, wf W -> sem_nonblank_weak W sem -> stored_ok W sem ->
+  forall h1 h2 n, Forall (be_op W) h1 -> Forall (be_op W) h2 -> n < wb_n W ->
+    snd (evaluate W sem (fst (run W sem (init W) h1)) n)
+    = snd (evaluate W sem (fst (run W sem (init W) h2)) n)
+    /\ snd (evaluate W sem (fst (run W sem (init W) h1)) n) = spec W sem (wb_inp0 W) n.
+Proof. exact order_weak. Qed.
+Print Assumptions C05_order_weak.
